@@ -211,7 +211,8 @@ let () =
   let started = ref false in
   let pres = ref [] and posts = ref [] in
   let cur = ref (-1) in
-  let all_posts = ref [] in      (* (iteration number, ground-truth posts), newest first *)
+  let all_posts = ref [] in
+  let prev_out = ref det_output0 in      (* (iteration number, ground-truth posts), newest first *)
   let calo = ref (tally0 fzero) in
   let act = ref counts0 and act_skip = ref counts0 and sdg = ref counts0 in
   let flush_iter () =
@@ -224,7 +225,13 @@ let () =
       print_view "MODEL" !cur p rows';
       List.iter (print_spec !cur p) (expected fzero is_zero p pre_l post_l);
       if has_det p then begin
-        print_detout !cur p (copy_steps p rows');
+        (* one output object reused across all iterations (coq/C17/Copy.v) *)
+        let o = copy_steps_into fzero !prev_out p rows' in
+        prev_out := o;
+        print_detout !cur p o;
+        print_string ("MHITS " ^ string_of_int !cur);
+        List.iter (fun (dd, tt) -> print_string (" " ^ pr_idopt dd ^ " " ^ pr_idopt tt)) (scored_hits o);
+        print_char '\n';
         if ncalo > 0 then calo := freeze_tally ncalo (calo_accum fadd rows' !calo)
       end;
       act := freeze_counts np nact (action_step false post_l !act);
